@@ -469,7 +469,7 @@ CallS(m, a) ==
 
 ----------------------------------------------------------------------------
 (* Dispatcher: the outcome of action record a in core state s              *)
-IsRx(a) == a.act \in {"RxConnect", "RxDisconnect", "RxEvent", "RxAck", "RxFrame", "RxRaw", "EioLost"}
+IsRx(a) == a.act \in {"RxConnect", "RxDisconnect", "RxEvent", "RxAck", "RxAckDup", "RxFrame", "RxRaw", "EioLost"}
 
 Step(m, a) ==
     CASE a.act = "EioOpen"      -> EioOpen(m, a.t)
@@ -478,6 +478,9 @@ Step(m, a) ==
       [] a.act = "RxDisconnect" -> DiscOne(m, a.t, a.ns, "client disconnect")
       [] a.act = "RxEvent"      -> HandleEvent(m, a.t, a.ns, a.id, a.ev, a.args)
       [] a.act = "RxAck"        -> HandleAck(m, a.t, a.ns, a.id, a.args)
+      \* the same ACK twice, the second while the first is still being processed (asyncio:
+      \* each frame is its own task and the application's callback may be suspended)
+      [] a.act = "RxAckDup"     -> HandleAck(HandleAck(m, a.t, a.ns, a.id, a.args), a.t, a.ns, a.id, a.args)
       [] a.act = "RxFrame"      ->
             IF a.kind \in {"hdr", "hdrbad"}
             THEN IF Has(m.s.binbuf, a.t) THEN RxAttachment(m, a.t, "?text")
@@ -521,7 +524,7 @@ Enabled(s, a) ==
     /\ CASE a.act = "EioOpen" -> s.eio[a.t] = "none" /\ \A u \in Transports : a.after = u => s.eio[u] # "none"
          [] a.act \in {"EioLost"} -> s.eio[a.t] = "open"
          [] a.act = "RxConnect" -> s.eio[a.t] = "open" /\ s.nextSid <= MaxSid /\ ~Has(s.binbuf, a.t)
-         [] a.act \in {"RxDisconnect", "RxEvent", "RxAck", "RxRaw"} -> s.eio[a.t] = "open" /\ ~Has(s.binbuf, a.t)
+         [] a.act \in {"RxDisconnect", "RxEvent", "RxAck", "RxAckDup", "RxRaw"} -> s.eio[a.t] = "open" /\ ~Has(s.binbuf, a.t)
          [] a.act = "RxFrame" -> /\ s.eio[a.t] = "open"
                                  /\ (a.kind \in {"hdr", "hdrbad"} => ~Has(s.binbuf, a.t))
                                  \* budget: attachments buffered for one packet
@@ -594,7 +597,7 @@ GhostStep(s, g, a, o) ==
                               {[sid |-> c.sid, id |-> o.pk[c.t][1].id, tag |-> CallTag(c.sid, o.pk[c.t][1].id)] :
                                   c \in {c \in g.conn : c.sid = a.sid /\ c.ns = a.ns /\ Has(o.pk, c.t)}}]
                  IN  GDuring(s, g1, a.during)
-      [] a.act = "RxAck" ->
+      [] a.act \in {"RxAck", "RxAckDup"} ->
             [g EXCEPT !.issued = {x \in @ : ~(x.id = a.id /\ \E c \in g.conn :
                                               c.t = a.t /\ c.ns = a.ns /\ c.sid = x.sid)}]
       [] a.act = "RxFrame" /\ a.kind = "att" /\ Has(s.binbuf, a.t) ->
@@ -782,7 +785,7 @@ C06_IssuedIdUnique ==
                 /\ ~\E x \in gh.issued : x.sid = c.sid /\ x.id = o.pk[c.t][1].id
 
 C06_AckOutcome ==
-    \A a \in Acts(st) : a.act = "RxAck" =>
+    \A a \in Acts(st) : a.act \in {"RxAck", "RxAckDup"} =>      \* (a duplicate changes nothing: at most once)
         LET o    == Do(st, a)
             mine == {x \in gh.issued : x.id = a.id /\ \E c \in gh.conn :
                                        c.t = a.t /\ c.ns = a.ns /\ c.sid = x.sid}
